@@ -422,9 +422,9 @@ impl Lowerer {
                 let rows = elements
                     .into_iter()
                     .map(|row| {
-                        row.kind
-                            .into_tuple()
-                            .unwrap()
+                        // (the resolver checks only the first element: a later
+                        // row may be anything)
+                        row.try_cast(|x| x.into_tuple(), Some("relation literal"), "tuples")?
                             .into_iter()
                             .map(|element| {
                                 element.try_cast(
